@@ -184,8 +184,20 @@ def rule_window_tiling(ctx: Ctx) -> None:
                     upper_incl = True
                 elif isinstance(op, ast.GtE):
                     upper_incl = False
-    ctx.require(lower_incl is not None and upper_incl is not None,
-                "C19.2: membership comparisons 'when < begin' / 'when > end' not found in _flush (unrecognised idiom)")
+    if lower_incl is None or upper_incl is None:
+        # is the missing bound tested in any other form?  then the idiom is unknown; otherwise the window is unbounded
+        bound_name = flush.params[1] if lower_incl is None else flush.params[2]
+        other = [n for n in C.walk_shallow(flush.node) if isinstance(n, ast.Compare)
+                 and any(isinstance(x, ast.Name) and x.id == bound_name for x in ast.walk(n))
+                 and not {x.id for x in ast.walk(n) if isinstance(x, ast.Name)} <= {flush.params[1], flush.params[2]}
+                 and not isinstance(getattr(n, "parent", None), ast.Assert)]
+        ctx.require(not other, "C19.2: window membership is tested with an idiom the rule does not recognise")
+        side = "lower" if lower_incl is None else "upper"
+        ctx.bad("C19.2", f"window membership has a {side} bound", flush, flush.node,
+                f"_flush never compares the trade time with the window's {'begin' if side == 'lower' else 'end'}: trades "
+                f"{'older than the window are folded into its bar' if side == 'lower' else 'of later windows are folded into this bar'}"
+                " (a trade is counted in a bar it does not belong to)", key_text=f"{side} bound present")
+        return
     # gap between consecutive windows on a 1 us clock: next.begin - this.end, in microseconds, as a*D + c
     gap_a = 1.0 - a
     gap_c = -c
